@@ -228,8 +228,36 @@ def _scope_functions(prog, pp):
     return {q for q in fns if q in prog.functions and prog.functions[q].parent is None}
 
 
+_REF_ATTR_SITES = None
+
+
+def _reference_attr_sites():
+    """(function, attribute target text) of every in-place mutation of an attribute-held container in the reference snapshot:
+    the sites confirmed on the pinned tree (evaluate filling self.slices, the intercept normalisation of Model.__or__, ...)"""
+    global _REF_ATTR_SITES
+    if _REF_ATTR_SITES is None:
+        from ..core import Program
+        from ..refswap import REF_ROOT
+        import os
+        out = set()
+        if os.path.isdir(os.path.join(REF_ROOT, "formulae")):
+            ref = Program(REF_ROOT, normalise=False)
+            for q2, f2 in ref.functions.items():
+                if f2.parent is not None:
+                    continue
+                for _node, target, _kind, _root in DF.inplace_sites(f2):
+                    t_ = target
+                    while isinstance(t_, ast.Subscript):
+                        t_ = t_.value
+                    if isinstance(t_, ast.Attribute):
+                        out.add((q2, unparse(t_)))
+        _REF_ATTR_SITES = out
+    return _REF_ATTR_SITES
+
+
 def r7_2(prog, rep, pp):
     n = 0
+    ref_sites = _reference_attr_sites()
     for q in sorted(_scope_functions(prog, pp)):
         f = prog.functions[q]
         sites = DF.inplace_sites(f)
@@ -238,11 +266,26 @@ def r7_2(prog, rep, pp):
         fr = DF.Freshness(f)
         for node, target, kind, root in sites:
             if isinstance(target, ast.Attribute) and not (isinstance(target.value, ast.Name) and False):
-                # attribute-level state: decided by R7.1 / R6.1
+                # attribute-level state: the writes of attributes are decided by R7.1 / R6.1; an in-place mutation of a container
+                # held in an attribute (self._namespaces.append(x), other.terms.pop()) is only accepted at the sites of the
+                # reference snapshot, in constructors, or on an object created in this very function
                 base = target
                 while isinstance(base, ast.Attribute):
                     base = base.value
                 if isinstance(target, ast.Attribute):
+                    ttxt = unparse(target)
+                    fresh_base = False
+                    if isinstance(base, ast.Name) and base.id not in (f.params[:1] or []):
+                        try:
+                            fresh_base = bool(fr.of_name(base.id, fr.cfg.node_of(node))[0]) if root is f.node else False
+                        except Exception:  # noqa: BLE001
+                            fresh_base = False
+                    if ref_sites and (f.qual, ttxt) not in ref_sites and f.name not in ("__init__",) and not f.is_setter and not fresh_base \
+                            and kind != "attribute store":
+                        n += 1
+                        rep.bad("R7.2", f.loc(node), f.qual, f"`{short(node, 70)}` ({kind} on `{ttxt}`)",
+                                f"a container held in `{ttxt}` is changed in place at a site the pinned tree does not have: the object outlives this call "
+                                "(a shared list of namespaces, the terms of a fitted design) and keeps the change")
                     continue
             if not isinstance(target, ast.Name):
                 if isinstance(target, ast.Subscript):
